@@ -17,7 +17,7 @@ from collections import Counter
 from common import LEAN, Driver, Report, check_proofs, proof_coverage, rng
 from families import FAMILIES, compile_family
 from gen import Cfg, G
-from pipeline import Case, exec_diff, replay_case
+from pipeline import Case, exec_diff, load_corpus, replay_case
 from shrink import prog_control_in_operand, shrink
 
 PROOF_MODULES = ["PyTealV.Proofs.C02Spill", "PyTealV.Proofs.C02RecPoints", "PyTealV.Proofs.SimR"]
@@ -62,24 +62,34 @@ def run(tier: str) -> int:
     samples, distinct, evaluations = [], set(), 0
 
     # ---- (2) generated call graphs
-    for i in range(nprog):
-        mode = r.choice(["app", "app", "sig"])
-        ver = r.choice([4, 5, 6, 7, 8, 9, 10])
-        exotic = r.random() < 0.06
-        if r.random() < 0.2:
-            # by-reference stream: non-recursive call chains that pass ScratchVars on (and write through them)
-            ver = max(ver, 5)
-            cfg = Cfg(mode=mode, version=ver, subs=r.choice([2, 3, 4]), recursive=False, call_bias=0.35, byref=True, byref_p=0.7,
-                      max_depth=3, max_stmts=4)
+    corpus = load_corpus("C02")
+    stats["corpus programs"] = len(corpus)
+    for i in range(-len(corpus), nprog):
+        if i < 0:
+            _name, p, ver, copts = corpus[i + len(corpus)]
+            mode, cfg = p.mode, Cfg(recursive=False)
+            settings = [copts]
         else:
-            cfg = Cfg(mode=mode, version=ver, subs=r.choice([1, 2, 3, 4]), recursive=r.random() < 0.6, call_bias=r.choice([0.1, 0.2, 0.3]),
-                      byref=r.random() < 0.35, max_depth=r.choice([3, 4]), control_in_operand=exotic)
-        g = G(r, cfg)
-        p = g.program()
-        for k, v in g.stats.items():
-            gstats[k.split(":")[0]] += v
-        gstats["programs:recursive" if cfg.recursive else "programs:nonrecursive"] += 1
-        for opts in option_sets(ver, r, tier):
+            settings = None
+        mode = p.mode if i < 0 else r.choice(["app", "app", "sig"])
+        ver = ver if i < 0 else r.choice([4, 5, 6, 7, 8, 9, 10])
+        if i >= 0:
+            exotic = r.random() < 0.06
+            if r.random() < 0.2:
+                # by-reference stream: non-recursive call chains that pass ScratchVars on (and write through them)
+                ver = max(ver, 5)
+                cfg = Cfg(mode=mode, version=ver, subs=r.choice([2, 3, 4]), recursive=False, call_bias=0.35, byref=True, byref_p=0.7,
+                          max_depth=3, max_stmts=4)
+            else:
+                cfg = Cfg(mode=mode, version=ver, subs=r.choice([1, 2, 3, 4]), recursive=r.random() < 0.6, call_bias=r.choice([0.1, 0.2, 0.3]),
+                          byref=r.random() < 0.35, max_depth=r.choice([3, 4]), control_in_operand=exotic)
+        if i >= 0:
+            g = G(r, cfg)
+            p = g.program()
+            for k, v in g.stats.items():
+                gstats[k.split(":")[0]] += v
+            gstats["programs:recursive" if cfg.recursive else "programs:nonrecursive"] += 1
+        for opts in (settings if settings is not None else option_sets(ver, r, tier)):
             case = Case(d, p, ver, **opts)
             stats[f"compile:{case.res[0]}"] += 1
             if not case.ok:
